@@ -70,6 +70,31 @@ fn lz_directed(r: &mut Rng, maxdist: usize, maxlen: usize) -> (Vec<u8>, String) 
     }
     (out, desc)
 }
+// ---- large-input ("huge_") generators: sizes around the 16-/17-/20-bit limits and a few MiB; shapes with one symbol occurring
+// far more than 65535 times, > 1000:1 compressible data, and two identical >= 64 KiB halves followed by a differing byte.
+const HUGE_SIZES: &[usize] = &[65535, 65536, 65537, 131071, 131072, 131073, 131074, (1 << 20) - 1, 1 << 20, (1 << 20) + 1, 3 << 20];
+const HUGE_SHAPES: &[&str] = &["all_equal", "dominant", "long_runs", "short_period", "xcxd", "uniform"];
+fn huge_shape(r: &mut Rng, shape: &str, len: usize) -> Vec<u8> {
+    match shape {
+        "all_equal" => vec![r.next() as u8; len],
+        "dominant" => { let dom = r.next() as u8; let pct = *r.pick(&[60u64, 90, 99]); (0..len).map(|_| if r.below(100) < pct { dom } else { r.next() as u8 }).collect() }
+        "long_runs" => { let mut out = Vec::with_capacity(len); while out.len() < len { let b = r.next() as u8; let n = *r.pick(&[65535usize, 65536, 65537, 70000, 131073, 300_000]); let n = n.min(len - out.len()); out.resize(out.len() + n, b); } out }
+        "short_period" => { let p = 1 + r.usize_below(7); let pat = r.bytes(p); (0..len).map(|i| pat[i % p]).collect() }
+        "xcxd" => { // X c X d, |X| >= 64 KiB when len allows
+            let h = len.saturating_sub(2) / 2; let x = if r.bool() { r.bytes(h) } else { gen::bytes_kind(r, 10, h) };
+            let mut out = Vec::with_capacity(len); out.extend_from_slice(&x); out.push(0x11); out.extend_from_slice(&x); out.push(0xEE); while out.len() < len { out.push(0x77); } out }
+        _ => r.bytes(len),
+    }
+}
+/// shape chosen by `sel` (so that a handful of cases still covers every shape), size from HUGE_SIZES capped at `max`
+fn huge_payload(c: &mut Case, sel: usize, max: usize) -> Vec<u8> {
+    let shape = HUGE_SHAPES[sel % HUGE_SHAPES.len()];
+    let sizes: Vec<usize> = HUGE_SIZES.iter().copied().filter(|&n| n <= max).collect();
+    let mut len = *c.rng.pick(&sizes); if shape == "xcxd" && len < 131074 { len = 131074.min(max); }
+    c.input_str("huge_shape", shape); c.input_str("len", &len.to_string());
+    let x = huge_shape(&mut c.rng, shape, len); c.input("x", &x); x
+}
+
 const PAYLOAD_FAMS: &[&str] = &["incompressible", "perm256", "short", "lzdir", "rle_runs"];
 /// directed payload families (besides gen::bytes_kind): returns bytes; records nothing
 fn payload_fam(r: &mut Rng, fam: &str, max: usize) -> Vec<u8> {
@@ -199,6 +224,23 @@ fn run_factory(ctx: &mut Ctx) {
             for idx in 0..ctx.n(2, 40) as u64 { ctx.case(&target, "lzdir_far", idx, |c| { let (x, d) = lz_directed(&mut c.rng, 65794, 140_000); c.input_str("directives", &d); c.input("x", &x); factory_case(c, alg, &x, None) }); }
         }
     }
+    // large inputs (the O(n * 32 KiB) DictionaryCompressor, and Hybrid which contains it, cannot take them within the case budget)
+    let mut algs = CompressorFactory::available_algorithms(); algs.push(Algorithm::SimdLz77);
+    for (ai, alg) in algs.into_iter().enumerate() {
+        let target = format!("factory/{}", alg_name(alg));
+        // (measured: 13-16 s CPU per 64 KiB payload for these two, whatever the shape -> no huge_ family for them)
+        if alg == Algorithm::Dictionary || alg == Algorithm::Hybrid { continue; }
+        for idx in 0..ctx.n(12, 120) as u64 {
+            ctx.case(&target, "huge_shapes", idx, |c| {
+                let x = huge_payload(c, idx as usize + ai, 3 << 20);
+                if needs_training(alg) {
+                    // trained on the payload itself, or only on its first 8 KiB (+ every byte value once): counts in the payload exceed the table by far
+                    let t: Vec<u8> = if idx % 2 == 0 { c.input_str("train_mode", "same"); x.clone() } else { c.input_str("train_mode", "prefix8k_sup"); let mut t = x[..x.len().min(8192)].to_vec(); t.extend(0..=255u8); t };
+                    factory_case(c, alg, &x, Some(&t))
+                } else { factory_case(c, alg, &x, None) }
+            });
+        }
+    }
     // Algorithm::Zstd(level) for arbitrary i32 levels (the enum admits any level)
     for idx in 0..ctx.n(30, 600) as u64 {
         ctx.case("factory/zstd_anylevel", "levels", idx, |c| {
@@ -294,7 +336,26 @@ fn adaptive_case(c: &mut Case, preset: &str, set_alg: Option<Algorithm>, with_em
     c.set_nontrivial(ok >= 1);
     Ok(())
 }
+/// three large blocks (64 KiB .. 1 MiB+1, huge shapes) through one adaptive compressor; all decompressed at the end
+fn adaptive_huge_case(c: &mut Case, set_alg: Option<Algorithm>, sel: usize) -> Res {
+    let cfg = AdaptiveConfig { learning_window: 4, min_operations: 1, evaluation_interval: 1, switch_threshold: 0.0, aggressive_learning: true, test_sample_size: 1 };
+    c.input_str("cfg", &format!("{cfg:?} set={set_alg:?}"));
+    let blocks: Vec<Vec<u8>> = (0..3).map(|i| huge_payload(c, sel + i, (1 << 20) + 1)).collect();
+    c.set_nontrivial(false);
+    let mut ac = match nopanic("AdaptiveCompressor::new", || AdaptiveCompressor::new(cfg, PerformanceRequirements::default()))? { Ok(a) => a, Err(e) => { c.note("ctor_err", 1); c.log(format!("{e}")); return Ok(()); } };
+    if let Some(a) = set_alg { match nopanic("set_algorithm", || ac.set_algorithm(a))? { Ok(()) => {} Err(_) => { c.note("set_algorithm_err", 1); return Ok(()); } } }
+    let mut zs = Vec::new();
+    for (i, b) in blocks.iter().enumerate() { zs.push(comp_res(c, &format!("adaptive huge block {i}"), catch(|| ac.compress(b)))?); }
+    let mut ok = 0;
+    for (i, (b, z)) in blocks.iter().zip(zs.iter()).enumerate() { if let Some(z) = z { dec_res(c, &format!("adaptive huge block {i} (len {})", b.len()), b, z.len(), catch(|| ac.decompress(z)))?; ok += 1; } }
+    c.set_nontrivial(ok >= 1);
+    Ok(())
+}
 fn run_adaptive(ctx: &mut Ctx) {
+    for idx in 0..ctx.n(4, 40) as u64 { ctx.case("adaptive/default", "huge_blocks", idx, |c| adaptive_huge_case(c, None, idx as usize * 3)); }
+    for (name, a) in [("none", Algorithm::None), ("lz4", Algorithm::Lz4), ("zstd3", Algorithm::Zstd(3)), ("zstd9", Algorithm::Zstd(9)), ("simdlz77_trait", Algorithm::SimdLz77)] {
+        for idx in 0..ctx.n(2, 24) as u64 { ctx.case(&format!("adaptive/set_{name}"), "huge_blocks", idx, |c| adaptive_huge_case(c, Some(a), idx as usize * 3 + name.len())); }
+    }
     for idx in 0..ctx.n(6, 60) as u64 { ctx.case("adaptive/default", "stream", idx, |c| adaptive_case(c, "default", None, false)); }
     for idx in 0..ctx.n(25, 500) as u64 { ctx.case("adaptive/tuned", "stream", idx, |c| adaptive_case(c, "tuned", None, false)); }
     for idx in 0..ctx.n(25, 500) as u64 { ctx.case("adaptive/aggressive", "stream", idx, |c| adaptive_case(c, "aggressive", None, false)); }
@@ -318,11 +379,16 @@ fn rt_payload(c: &mut Case) -> Vec<u8> { let fam = c.rng.usize_below(NFAM); c.in
 
 /// how: "far" (deadline one hour away), "mode" (compress(): mode-specific deadline), "paused" (far deadline, virtual clock paused
 /// and advanced), "batch" (compress_batch), "expired" (deadline already in the past -> deterministic fallback branch)
-fn realtime_case(c: &mut Case, mode: CompressionMode, how: &str) -> Res {
+fn realtime_case(c: &mut Case, mode: CompressionMode, how: &str) -> Res { realtime_case_ex(c, mode, how, None) }
+/// `huge`: Some(sel) => payloads from the huge_ generators (<= 3 MiB) instead of the small families
+fn realtime_case_ex(c: &mut Case, mode: CompressionMode, how: &str, huge: Option<usize>) -> Res {
     let fallback = if how == "expired" { c.rng.chance(3, 4) } else { c.rng.bool() };
     let cfg = rt_cfg(c, mode, fallback);
     c.input_str("how", how);
-    let xs: Vec<Vec<u8>> = if how == "batch" { let n = 1 + c.rng.usize_below(6); (0..n).map(|_| rt_payload(c)).collect() } else { vec![rt_payload(c)] };
+    let xs: Vec<Vec<u8>> = match huge {
+        Some(sel) => if how == "batch" { (0..2).map(|i| huge_payload(c, sel + i, (1 << 20) + 1)).collect() } else { vec![huge_payload(c, sel, 3 << 20)] },
+        None => if how == "batch" { let n = 1 + c.rng.usize_below(6); (0..n).map(|_| rt_payload(c)).collect() } else { vec![rt_payload(c)] },
+    };
     c.set_nontrivial(false);
     if how == "expired" && fallback { c.tag("rt_expired_deadline_fallback"); if mode != CompressionMode::UltraLowLatency { c.tag("rt_fallback_untagged_raw"); } }
     let rtc = match nopanic("RealtimeCompressor::new", || RealtimeCompressor::new(cfg))? { Ok(r) => r, Err(e) => { c.note("ctor_err", 1); c.log(format!("{e}")); return Ok(()); } };
@@ -363,6 +429,10 @@ fn run_realtime(ctx: &mut Ctx) {
         let t = format!("rt/{}", mode_name(mode)); let te = format!("rt_expired/{}", mode_name(mode));
         for how in ["far", "mode", "paused", "batch"] { for idx in 0..ctx.n(12, 200) as u64 { ctx.case(&t, how, idx, |c| realtime_case(c, mode, how)); } }
         for idx in 0..ctx.n(20, 300) as u64 { ctx.case(&te, "expired", idx, |c| realtime_case(c, mode, "expired")); }
+        let mi = mode_name(mode).len();
+        for idx in 0..ctx.n(6, 60) as u64 { ctx.case(&t, "huge_far", idx, |c| realtime_case_ex(c, mode, "far", Some(idx as usize + mi))); }
+        for idx in 0..ctx.n(2, 24) as u64 { ctx.case(&t, "huge_batch", idx, |c| realtime_case_ex(c, mode, "batch", Some(idx as usize * 2 + mi))); }
+        for idx in 0..ctx.n(3, 36) as u64 { ctx.case(&te, "huge_expired", idx, |c| realtime_case_ex(c, mode, "expired", Some(idx as usize + mi + 3))); }
     }
 }
 
@@ -449,13 +519,15 @@ fn pazip_builder_case(c: &mut Case, preset: &str, tmode: &str, big: bool, huge: 
 /// dictionaries through SuffixArrayDictionary::new directly (the whole training text becomes the dictionary), incl. > 64 KiB
 fn pazip_sadict_case(c: &mut Case, preset: &str, size: &str) -> Res {
     let bigdict = size == "gt64k";
-    let dlen = match size { "gt64k" => 65537 + c.rng.usize_below(60_000), "long_match" => 65_600 + c.rng.usize_below(1500), "mid" => 10_000 + c.rng.usize_below(40_000), _ => 16 + c.rng.usize_below(6000) };
-    let k = if size == "long_match" { *c.rng.pick(&[8u32, 10]) } else { *c.rng.pick(&[10u32, 0, 5, 9, 12]) };
+    let dlen = match size { "gt64k" => 65537 + c.rng.usize_below(60_000), "long_match" => 65_600 + c.rng.usize_below(1500), "huge_xcxd" => *c.rng.pick(&[65_535usize, 65_536, 65_537, 70_000]), "mid" => 10_000 + c.rng.usize_below(40_000), _ => 16 + c.rng.usize_below(6000) };
+    let k = if size == "huge_xcxd" { *c.rng.pick(&[10u32, 8]) } else if size == "long_match" { *c.rng.pick(&[8u32, 10]) } else { *c.rng.pick(&[10u32, 0, 5, 9, 12]) };
     let dict_text = gen::bytes_kind(&mut c.rng, k, dlen);
     // payload: pieces of the dictionary (from everywhere, including beyond 64 KiB) mixed with fresh bytes
     let mut x = Vec::new(); let want = 200 + c.rng.usize_below(3000);
     // "long_match": the payload IS the dictionary text (> 65535 bytes): one dictionary match longer than the 16-bit length field
     if size == "long_match" { x = dict_text.clone(); c.tag("pazip_match_len_gt_64k"); }
+    // "huge_xcxd": payload = X c X d where X is the whole dictionary text (>= 64 KiB): two maximal dictionary matches, offsets 0, lengths at the 16-bit limit
+    if size == "huge_xcxd" { x = dict_text.clone(); x.push(0x11); x.extend_from_slice(&dict_text); x.push(0xEE); if dlen > 65_535 { c.tag("pazip_match_len_gt_64k"); } }
     while x.len() < want { if c.rng.chance(3, 4) { let a = if bigdict && c.rng.bool() { 65536 + c.rng.usize_below(dlen - 65536) } else { c.rng.usize_below(dlen) }; let n = (6 + c.rng.usize_below(300)).min(dlen - a); x.extend_from_slice(&dict_text[a..a + n]); } else { let n = 1 + c.rng.usize_below(12); let f = c.rng.bytes(n); x.extend(f); } }
     c.input_str("dict_kind", gen::byte_kind_name(k)); c.input("dict_text", &dict_text); c.input("x", &x);
     if dlen > 65536 { c.tag("pazip_dict_gt_64k"); } if (10_000..=50_000).contains(&dlen) { c.tag("pazip_dict_10k_to_50k"); } if preset == "reference" { c.tag("pazip_reference_encoding"); }
@@ -468,17 +540,35 @@ fn pazip_sadict_case(c: &mut Case, preset: &str, size: &str) -> Res {
     c.set_nontrivial(ok);
     Ok(())
 }
+/// large payloads (64 KiB .. 1 MiB+1, huge shapes) with a small builder dictionary trained on the payload's first bytes
+fn pazip_huge_case(c: &mut Case, preset: &str, sel: usize) -> Res {
+    let x = huge_payload(c, sel, (1 << 20) + 1);
+    let train = x[..x.len().min(3000)].to_vec(); c.input_str("train_mode", "prefix3000");
+    let dc = DictionaryBuilderConfig { target_dict_size: 2048, max_dict_size: 4096, validate_result: true, sample_ratio: 1.0, use_parallel: false, enable_progress: false, ..Default::default() };
+    if x.len() >= (1 << 20) && pazip_cfg(preset).enable_multithreading && !pazip_cfg(preset).use_reference_encoding { c.tag("pazip_parallel_ge_1mib"); }
+    c.set_nontrivial(false);
+    let dict = match nopanic("DictionaryBuilder::build", || DictionaryBuilder::with_config(dc).build(&train))? { Ok(d) => d, Err(e) => { c.note("dict_build_err", 1); c.log(format!("{e}")); return Ok(()); } };
+    let dtext = dict.dictionary_text().to_vec();
+    let pool = match SecureMemoryPool::new(SecurePoolConfig::small_secure()) { Ok(p) => p, Err(e) => return inconclusive(format!("pool: {e}")) };
+    let mut pz = match nopanic("PaZipCompressor::new", || PaZipCompressor::new(dict, pazip_cfg(preset), pool))? { Ok(p) => p, Err(e) => { c.note("ctor_err", 1); c.log(format!("{e}")); return Ok(()); } };
+    let ok = pazip_roundtrip(c, &mut pz, &x, &dtext, &format!("PaZip({preset}) huge payload, dict {}B", dtext.len()))?;
+    c.set_nontrivial(ok);
+    Ok(())
+}
 fn run_pazip(ctx: &mut Ctx) {
     for preset in PAZIP_PRESETS {
         let t = format!("pazip/{preset}");
         for tmode in ["same", "other", "related", "tiny"] { for idx in 0..ctx.n(12, 180) as u64 { ctx.case(&t, tmode, idx, |c| pazip_builder_case(c, preset, tmode, false, false)); } }
         // (the reference preset needs > 60 s CPU on a 64 KiB payload and cannot be decoded anyway: no big payloads for it)
         if *preset != "reference" { for idx in 0..ctx.n(2, 20) as u64 { ctx.case(&t, "big_same", idx, |c| pazip_builder_case(c, preset, "same", true, idx % 2 == 1)); } }
+        // (reference preset: > 60 s CPU on 64 KiB and a known finding anyway: no huge payloads)
+        if *preset != "reference" { for idx in 0..ctx.n(6, 60) as u64 { ctx.case(&t, "huge_shapes", idx, |c| pazip_huge_case(c, preset, idx as usize + preset.len())); } }
         let t2 = format!("pazip_sadict/{preset}");
         for idx in 0..ctx.n(8, 100) as u64 { ctx.case(&t2, "dict_small", idx, |c| pazip_sadict_case(c, preset, "small")); }
         for idx in 0..ctx.n(5, 50) as u64 { ctx.case(&t2, "dict_mid", idx, |c| pazip_sadict_case(c, preset, "mid")); }
         for idx in 0..ctx.n(3, 40) as u64 { ctx.case(&t2, "dict_gt64k", idx, |c| pazip_sadict_case(c, preset, "gt64k")); }
         if *preset != "reference" { for idx in 0..ctx.n(1, 10) as u64 { ctx.case(&t2, "long_match", idx, |c| pazip_sadict_case(c, preset, "long_match")); } }
+        if *preset != "reference" { for idx in 0..ctx.n(2, 16) as u64 { ctx.case(&t2, "huge_xcxd", idx, |c| pazip_sadict_case(c, preset, "huge_xcxd")); } }
     }
 }
 
@@ -528,8 +618,10 @@ fn bits_single_case(c: &mut Case, variant: usize) -> Res {
     c.note(&format!("bits_vs_doc:{}", if wrote == model_bits(&m) { "equal" } else { "differs" }), 1);
     Ok(())
 }
-fn bits_seq_case(c: &mut Case, homogeneous: Option<usize>) -> Res {
-    let n = *c.rng.pick(&[0usize, 1, 1, 2, 3, 5, 8, 17, 64, 300]);
+fn bits_seq_case(c: &mut Case, homogeneous: Option<usize>) -> Res { bits_seq_case_ex(c, homogeneous, false) }
+/// `huge`: more than 65536 / 10^5 matches in one stream (bit positions far beyond 2^20)
+fn bits_seq_case_ex(c: &mut Case, homogeneous: Option<usize>, huge: bool) -> Res {
+    let n = if huge { *c.rng.pick(&[65_536usize, 65_537, 100_001, 131_073]) } else { *c.rng.pick(&[0usize, 1, 1, 2, 3, 5, 8, 17, 64, 300]) };
     let mut ms = Vec::with_capacity(n);
     while ms.len() < n { let v = homogeneous.unwrap_or_else(|| c.rng.usize_below(8)); if let Some(m) = gen_match(&mut c.rng, v) { ms.push(m); } }
     let desc: String = ms.iter().take(40).map(|m| format!("{m:?};")).collect(); c.input_str("matches", &format!("n={n} {desc}")); c.hash_more(format!("{ms:?}").as_bytes());
@@ -551,6 +643,8 @@ fn run_bits(ctx: &mut Ctx) {
         for idx in 0..ctx.n(12, 400) as u64 { ctx.case(&t, "seq_same_variant", idx, |c| bits_seq_case(c, Some(v))); }
     }
     for idx in 0..ctx.n(200, 6000) as u64 { ctx.case("bits/seq_mixed", "seq", idx, |c| bits_seq_case(c, None)); }
+    for v in 0..8 { let t = format!("bits/{}", VARIANTS[v]); for idx in 0..ctx.n(1, 12) as u64 { ctx.case(&t, "huge_seq_same_variant", idx, |c| bits_seq_case_ex(c, Some(v), true)); } }
+    for idx in 0..ctx.n(3, 40) as u64 { ctx.case("bits/seq_mixed", "huge_seq", idx, |c| bits_seq_case_ex(c, None, true)); }
 }
 
 /// exploratory diagnostics (only with ZV_C02_DBG=1): minimal reproductions (stderr) + correctness of SuffixArrayDictionary::find_longest_match itself
